@@ -1,9 +1,18 @@
 // Command concdriver runs real PARALLEL executions of the server (C12): several real clients call
-// ProcessPushPull on one datatype at the same moment, each call with its own request context that
-// is cancelled when the call returns (as gRPC does), with seeded random delays in front of every
-// database command. It records an ndjson trace (open / local / call / ret / apply / store / client /
-// reset events, in the order the harness observed them under its own mutex) that TLC validates
-// against OrdaSyncTrace: the run must equal some one-at-a-time order of the requests.
+// ProcessPushPull at the same time, each call with its own request context that is cancelled when the
+// call returns (as gRPC does), with seeded random delays in front of every database command. It records
+// an ndjson trace per datatype (open / local / call / ret / apply / store / client / reset events, in the
+// order the harness observed them under its own mutex) that TLC validates against OrdaSyncTrace: the run
+// must equal some one-at-a-time order of the requests of that datatype.
+//
+// Three shapes of rounds:
+//
+//	burst      every exchange releases the calls of several clients at the same moment and waits for all
+//	staggered  every client syncs several times in a row on its own, starting at random moments: requests
+//	           arrive while others hold the key's lock, wait for it, or have just released it
+//	multi      every client has two datatypes and sends both packs in one message, in random order (what
+//	           Client.Sync does); the packs of a message are handled in parallel by the server
+//
 // Hangs, panics and a dying process are reported by the driver itself.
 package main
 
@@ -51,8 +60,268 @@ func kindOf(p *model.PushPullPack) string {
 	return "normal"
 }
 
+const deadline = 12 * time.Second
+
+// round is one world: a fresh store and server, n clients, nk datatypes each.
+type round struct {
+	r      int
+	seed   int64
+	rng    *rand.Rand
+	st     *stack.Stack
+	n, nk  int
+	keys   []string
+	cls    map[int]*stack.Client
+	dts    map[int][]*stack.DT // client -> datatype per key index
+	cuid   map[string]int
+	nlocal map[[2]int]int
+	mu     sync.Mutex
+	trace  [][]ev // per key index
+	nextID []int  // per key index
+	viol   *[]Violation
+	failed bool
+	ncalls int
+	npar   int
+}
+
+func (w *round) emit(k int, e ev) {
+	w.mu.Lock()
+	w.trace[k] = append(w.trace[k], e)
+	w.mu.Unlock()
+}
+
+func (w *round) fail(class, why string) {
+	w.mu.Lock()
+	defer w.mu.Unlock()
+	if w.failed {
+		return
+	}
+	w.failed = true
+	var all []ev
+	for _, t := range w.trace {
+		all = append(all, t...)
+	}
+	*w.viol = append(*w.viol, Violation{Property: "C12", Kind: "counter", Class: class, Why: why, Steps: all, Tool: "concdriver", Seed: w.seed, Round: w.r,
+		Hash: fmt.Sprintf("conc-%d-%d", w.seed, w.r)})
+}
+
+func (w *round) delays(on bool) {
+	if !on {
+		w.st.FM.Gate = nil
+		return
+	}
+	var dmu sync.Mutex
+	drng := rand.New(rand.NewSource(w.seed*1000 + int64(w.r)))
+	w.st.FM.Gate = func(name, coll string) {
+		dmu.Lock()
+		d := time.Duration(drng.Intn(300)) * time.Microsecond
+		dmu.Unlock()
+		if d > 50*time.Microsecond {
+			time.Sleep(d)
+		}
+	}
+}
+
+// syncOnce: client c sends one message with the packs of the given key indexes (in that order), waits for
+// the answer and applies it. Events are emitted per key, under the harness mutex, at the moment they happen.
+func (w *round) syncOnce(c int, ks []int) bool {
+	var packs []*model.PushPullPack
+	ids := map[int]int{}
+	w.mu.Lock()
+	for _, k := range ks {
+		d := w.dts[c][k]
+		pack := d.DT.CreatePushPullPack()
+		packs = append(packs, pack)
+		w.nextID[k]++
+		ids[k] = w.nextID[k]
+		w.trace[k] = append(w.trace[k], ev{"event": "call", "id": ids[k], "c": c, "nops": len(pack.Operations), "cps": pack.CheckPoint.Sseq, "cpc": pack.CheckPoint.Cseq})
+		w.ncalls++
+	}
+	w.mu.Unlock()
+	msg := model.NewPushPullMessage(uint32(w.ncalls), w.cls[c].Model, packs...)
+	res := w.st.Serve(stack.Marshal(msg), deadline)
+	got := map[string]*model.PushPullPack{}
+	if res.Resp != nil {
+		out := &model.PushPullMessage{}
+		proto.Unmarshal(res.Resp, out)
+		for _, p := range out.PushPullPacks {
+			got[p.Key] = p
+		}
+	}
+	w.mu.Lock()
+	for _, k := range ks {
+		e := ev{"event": "ret", "id": ids[k], "c": c}
+		if p := got[w.keys[k]]; p != nil {
+			e["kind"], e["cps"], e["cpc"], e["nops"] = kindOf(p), p.CheckPoint.Sseq, p.CheckPoint.Cseq, len(p.Operations)
+		} else if res.Resp != nil {
+			e["kind"] = "empty"
+		} else {
+			e["kind"] = "rpcerror"
+		}
+		w.trace[k] = append(w.trace[k], e)
+	}
+	w.mu.Unlock()
+	if res.Timeout {
+		w.fail("hang", fmt.Sprintf("a request of client %d was not answered within %v", c, deadline))
+		return false
+	}
+	if res.Panic != "" {
+		w.fail("panic", "the server panicked: "+res.Panic)
+		return false
+	}
+	if res.Resp == nil {
+		return true
+	}
+	for _, k := range ks {
+		if got[w.keys[k]] == nil {
+			continue
+		}
+		if _, pan := w.dts[c][k].Apply(res.Resp); pan != "" {
+			w.fail("panic", "the client panicked applying a response: "+pan)
+			return false
+		}
+		w.emit(k, ev{"event": "apply", "id": ids[k], "c": c})
+	}
+	return true
+}
+
+// burst: the calls of several clients (one key) are released at the same moment; all are applied afterwards
+// in random order.
+func (w *round) burst(who []int, k int) bool {
+	type pend struct {
+		c, id int
+		req   []byte
+		res   stack.ServeResult
+	}
+	var ps []*pend
+	w.mu.Lock()
+	for _, c := range who {
+		d := w.dts[c][k]
+		pack := d.DT.CreatePushPullPack()
+		w.nextID[k]++
+		p := &pend{c: c, id: w.nextID[k], req: d.Request()}
+		ps = append(ps, p)
+		w.trace[k] = append(w.trace[k], ev{"event": "call", "id": p.id, "c": c, "nops": len(pack.Operations), "cps": pack.CheckPoint.Sseq, "cpc": pack.CheckPoint.Cseq})
+		w.ncalls++
+	}
+	w.mu.Unlock()
+	if len(who) > 1 {
+		w.npar++
+	}
+	start := make(chan struct{})
+	var wg sync.WaitGroup
+	for _, p := range ps {
+		p := p
+		wg.Add(1)
+		go func() {
+			defer wg.Done()
+			<-start
+			p.res = w.st.Serve(p.req, deadline)
+			e := ev{"event": "ret", "id": p.id, "c": p.c}
+			if p.res.Resp != nil {
+				msg := &model.PushPullMessage{}
+				proto.Unmarshal(p.res.Resp, msg)
+				if len(msg.PushPullPacks) == 1 {
+					q := msg.PushPullPacks[0]
+					e["kind"], e["cps"], e["cpc"], e["nops"] = kindOf(q), q.CheckPoint.Sseq, q.CheckPoint.Cseq, len(q.Operations)
+				} else {
+					e["kind"] = "empty"
+				}
+			} else {
+				e["kind"] = "rpcerror"
+			}
+			w.emit(k, e)
+		}()
+	}
+	close(start)
+	wg.Wait()
+	for _, p := range ps {
+		if p.res.Timeout {
+			w.fail("hang", fmt.Sprintf("a request of client %d was not answered within %v while %d requests were in flight", p.c, deadline, len(who)))
+			return false
+		}
+		if p.res.Panic != "" {
+			w.fail("panic", "the server panicked: "+p.res.Panic)
+			return false
+		}
+	}
+	w.rng.Shuffle(len(ps), func(i, j int) { ps[i], ps[j] = ps[j], ps[i] })
+	for _, p := range ps {
+		if p.res.Resp == nil {
+			continue
+		}
+		if _, pan := w.dts[p.c][k].Apply(p.res.Resp); pan != "" {
+			w.fail("panic", "the client panicked applying a response: "+pan)
+			return false
+		}
+		w.emit(k, ev{"event": "apply", "id": p.id, "c": p.c})
+	}
+	return true
+}
+
+func (w *round) local(c, k int) {
+	key := [2]int{c, k}
+	if w.nlocal[key] >= 3 {
+		return
+	}
+	w.nlocal[key]++
+	idx := (c-1)*3 + w.nlocal[key] - 1
+	w.mu.Lock()
+	w.dts[c][k].Counter.IncreaseBy(int32(1) << (2 * uint(idx)))
+	w.trace[k] = append(w.trace[k], ev{"event": "local", "c": c})
+	w.mu.Unlock()
+}
+
+// quiescent point: the store and every client as read from the real objects
+func (w *round) snapshotState() {
+	w.delays(false)
+	store := w.st.ReadStore()
+	for k := 0; k < w.nk; k++ {
+		for _, dr := range store.Datatypes {
+			if dr.Key != w.keys[k] {
+				continue
+			}
+			lg := [][]int{}
+			ops := append([]stack.OpRow{}, store.Ops[dr.DUID]...)
+			sort.Slice(ops, func(i, j int) bool { return ops[i].Sseq < ops[j].Sseq })
+			for _, o := range ops {
+				lg = append(lg, []int{w.cuid[o.CUID], int(o.Seq)})
+			}
+			scp := make([][]int, 4)
+			for c := 1; c <= 4; c++ {
+				scp[c-1] = []int{-1, -1}
+				if cl, okc := w.cls[c]; okc {
+					if cp, has := dr.CP[cl.Model.CUID]; has {
+						scp[c-1] = []int{int(cp[0]), int(cp[1])}
+					}
+				}
+			}
+			w.emit(k, ev{"event": "store", "log": lg, "end": dr.End, "scp": scp})
+		}
+		for c := 1; c <= w.n; c++ {
+			pack := w.dts[c][k].DT.CreatePushPullPack()
+			v := uint32(w.dts[c][k].Counter.Get())
+			held := [][]int{}
+			for idx := 0; idx < 12; idx++ {
+				if d := (v >> (2 * uint(idx))) & 3; d != 0 {
+					oc := idx/3 + 1
+					kk := idx%3 + 1
+					seq := kk
+					if oc == 1 {
+						seq = kk + 1
+					}
+					for m := 0; m < int(d); m++ {
+						held = append(held, []int{oc, seq})
+					}
+				}
+			}
+			w.emit(k, ev{"event": "client", "c": c, "cps": pack.CheckPoint.Sseq, "seq": pack.CheckPoint.Cseq, "held": held})
+		}
+	}
+	w.delays(true)
+}
+
 func main() {
-	rounds := flag.Int("rounds", 20, "rounds (one datatype each)")
+	rounds := flag.Int("rounds", 20, "rounds (one world each)")
 	seed := flag.Int64("seed", 1, "seed")
 	out := flag.String("out", "trace.ndjson", "trace file")
 	nmax := flag.Int("clients", 4, "clients per round (2..4)")
@@ -71,229 +340,150 @@ func main() {
 	enc := json.NewEncoder(f)
 	var viol []Violation
 	nevents, ncalls, nparallel := 0, 0, 0
+	shapes := map[string]int{}
 	for r := 0; r < *rounds; r++ {
-		var trace []ev
-		var mu sync.Mutex
-		emit := func(e ev) {
-			mu.Lock()
-			trace = append(trace, e)
-			mu.Unlock()
-		}
+		shape := []string{"burst", "staggered", "multi"}[r%3]
+		shapes[shape]++
 		st, err := stack.New()
 		if err != nil {
 			fmt.Printf(`{"error":"stack: %s"}`+"\n", err)
 			os.Exit(3)
 		}
 		st.CreateCollection("col")
-		// seeded random delay in front of every database command: varies the interleavings of handlers
-		var dmu sync.Mutex
-		drng := rand.New(rand.NewSource(*seed*1000 + int64(r)))
-		st.FM.Gate = func(name, coll string) {
-			dmu.Lock()
-			d := time.Duration(drng.Intn(300)) * time.Microsecond
-			dmu.Unlock()
-			if d > 50*time.Microsecond {
-				time.Sleep(d)
-			}
+		w := &round{r: r, seed: *seed, rng: rng, st: st, n: 2 + rng.Intn(*nmax-1), nk: 1, cls: map[int]*stack.Client{}, dts: map[int][]*stack.DT{},
+			cuid: map[string]int{}, nlocal: map[[2]int]int{}, viol: &viol}
+		if shape == "multi" {
+			w.nk = 2
 		}
-		n := 2 + rng.Intn(*nmax-1)
-		key := fmt.Sprintf("k%d", r)
-		cls := map[int]*stack.Client{}
-		dts := map[int]*stack.DT{}
-		cuid := map[string]int{}
-		nlocal := map[int]int{}
-		nextID := 0
-		fail := func(class, why string) {
-			viol = append(viol, Violation{Property: "C12", Kind: "counter", Class: class, Why: why, Steps: trace, Tool: "concdriver", Seed: *seed, Round: r,
-				Hash: fmt.Sprintf("conc-%d-%d", *seed, r)})
+		if shape == "staggered" && w.n < 3 {
+			w.n = 3 // a holder, a waiter and a late arrival
 		}
-		type result struct {
-			id  int
-			c   int
-			res stack.ServeResult
+		for k := 0; k < w.nk; k++ {
+			w.keys = append(w.keys, fmt.Sprintf("k%d_%d", r, k))
 		}
-		// one exchange of a set of clients, all calls in flight at the same time
-		exchange := func(who []int) bool {
-			reqs := map[int][]byte{}
-			ids := map[int]int{}
-			for _, c := range who {
-				d := dts[c]
-				pack := d.DT.CreatePushPullPack()
-				nextID++
-				ids[c] = nextID
-				reqs[c] = d.Request()
-				emit(ev{"event": "call", "id": nextID, "c": c, "nops": len(pack.Operations), "cps": pack.CheckPoint.Sseq, "cpc": pack.CheckPoint.Cseq})
-				ncalls++
-			}
-			if len(who) > 1 {
-				nparallel++
-			}
-			start := make(chan struct{})
-			resCh := make(chan result, len(who))
-			for _, c := range who {
-				c := c
-				go func() {
-					<-start
-					res := st.Serve(reqs[c], 12*time.Second)
-					mu.Lock()
-					e := ev{"event": "ret", "id": ids[c], "c": c}
-					if res.Resp != nil {
-						msg := &model.PushPullMessage{}
-						proto.Unmarshal(res.Resp, msg)
-						if len(msg.PushPullPacks) == 1 {
-							p := msg.PushPullPacks[0]
-							e["kind"], e["cps"], e["cpc"], e["nops"] = kindOf(p), p.CheckPoint.Sseq, p.CheckPoint.Cseq, len(p.Operations)
-						} else {
-							e["kind"] = "empty"
-						}
-					} else {
-						e["kind"] = "rpcerror"
-					}
-					trace = append(trace, e)
-					mu.Unlock()
-					resCh <- result{ids[c], c, res}
-				}()
-			}
-			close(start)
-			var results []result
-			for range who {
-				rr := <-resCh
-				results = append(results, rr)
-			}
-			for _, rr := range results {
-				if rr.res.Timeout {
-					fail("hang", fmt.Sprintf("a request of client %d was not answered within 12 s while %d requests were in flight", rr.c, len(who)))
-					return false
-				}
-				if rr.res.Panic != "" {
-					fail("panic", "the server panicked: "+rr.res.Panic)
-					return false
-				}
-			}
-			rng.Shuffle(len(results), func(i, j int) { results[i], results[j] = results[j], results[i] })
-			for _, rr := range results {
-				if rr.res.Resp == nil {
-					continue
-				}
-				if _, pan := dts[rr.c].Apply(rr.res.Resp); pan != "" {
-					fail("panic", "the client panicked applying a response: "+pan)
-					return false
-				}
-				emit(ev{"event": "apply", "id": rr.id, "c": rr.c})
-			}
-			return true
-		}
+		w.trace = make([][]ev, w.nk)
+		w.nextID = make([]int, w.nk)
+		w.delays(true)
 		ok := true
-		for c := 1; c <= n && ok; c++ {
+		for c := 1; c <= w.n && ok; c++ {
 			cl := stack.NewClient("col", fmt.Sprintf("c%d", c))
 			mode := "dueSub"
 			if c == 1 {
 				mode = "dueCreate"
 			}
-			d := cl.Open("counter", key, mode)
+			for k := 0; k < w.nk; k++ {
+				d := cl.Open("counter", w.keys[k], mode)
+				w.dts[c] = append(w.dts[c], d)
+				w.emit(k, ev{"event": "open", "c": c, "mode": mode})
+			}
 			if err := st.Register(cl); err != nil {
 				fmt.Printf(`{"error":"register: %s"}`+"\n", err)
 				os.Exit(3)
 			}
-			cls[c], dts[c] = cl, d
-			cuid[cl.Model.CUID] = c
-			emit(ev{"event": "open", "c": c, "mode": mode})
-			if c == 1 {
-				ok = exchange([]int{1}) // the datatype exists before anybody subscribes
+			w.cls[c] = cl
+			w.cuid[cl.Model.CUID] = c
+			if c == 1 { // the datatypes exist before anybody subscribes
+				for k := 0; k < w.nk && ok; k++ {
+					ok = w.burst([]int{1}, k)
+				}
 			}
 		}
 		// the subscribers subscribe at the same moment
 		var subs []int
-		for c := 2; c <= n; c++ {
+		for c := 2; c <= w.n; c++ {
 			subs = append(subs, c)
 		}
-		if ok && len(subs) > 0 {
-			ok = exchange(subs)
+		for k := 0; k < w.nk && ok && len(subs) > 0; k++ {
+			ok = w.burst(subs, k)
 		}
 		phases := 2 + rng.Intn(3)
 		for ph := 0; ph < phases && ok; ph++ {
-			var who []int
-			for c := 1; c <= n; c++ {
-				k := rng.Intn(3)
-				for j := 0; j < k && nlocal[c] < 3; j++ {
-					nlocal[c]++
-					idx := (c-1)*3 + nlocal[c] - 1
-					dts[c].Counter.IncreaseBy(int32(1) << (2 * uint(idx)))
-					emit(ev{"event": "local", "c": c})
+			switch shape {
+			case "burst":
+				var who []int
+				for c := 1; c <= w.n; c++ {
+					for j := rng.Intn(3); j > 0; j-- {
+						w.local(c, 0)
+					}
+					if rng.Intn(4) > 0 {
+						who = append(who, c)
+					}
 				}
-				if rng.Intn(4) > 0 {
-					who = append(who, c)
+				if len(who) == 0 {
+					who = []int{1}
 				}
+				ok = w.burst(who, 0)
+			default:
+				// every client works on its own: a few syncs in a row, starting at random moments
+				var wg sync.WaitGroup
+				plans := map[int][][]int{}
+				starts := map[int]time.Duration{}
+				gaps := map[int][]time.Duration{}
+				locals := map[int][][2]int{}
+				for c := 1; c <= w.n; c++ {
+					m := 1 + rng.Intn(3)
+					for j := 0; j < m; j++ {
+						ks := []int{0}
+						if w.nk == 2 {
+							switch rng.Intn(4) {
+							case 0:
+								ks = []int{0, 1}
+							case 1:
+								ks = []int{1, 0}
+							case 2:
+								ks = []int{1}
+							}
+						}
+						plans[c] = append(plans[c], ks)
+						gaps[c] = append(gaps[c], time.Duration(rng.Intn(1500))*time.Microsecond)
+						locals[c] = append(locals[c], [2]int{rng.Intn(2), rng.Intn(w.nk)})
+					}
+					starts[c] = time.Duration(rng.Intn(2500)) * time.Microsecond
+				}
+				w.npar++
+				okAll := true
+				var okMu sync.Mutex
+				for c := 1; c <= w.n; c++ {
+					c := c
+					wg.Add(1)
+					go func() {
+						defer wg.Done()
+						time.Sleep(starts[c])
+						for j, ks := range plans[c] {
+							if locals[c][j][0] == 1 {
+								w.local(c, locals[c][j][1])
+							}
+							if !w.syncOnce(c, ks) {
+								okMu.Lock()
+								okAll = false
+								okMu.Unlock()
+								return
+							}
+							time.Sleep(gaps[c][j])
+						}
+					}()
+				}
+				wg.Wait()
+				ok = okAll
 			}
-			if len(who) == 0 {
-				who = []int{1}
-			}
-			ok = exchange(who)
 			if !ok {
 				break
 			}
-			// quiescent point: the store and every client as read from the real objects
-			st.FM.Gate = nil
-			store := st.ReadStore()
-			if len(store.Datatypes) == 1 {
-				dr := store.Datatypes[0]
-				var lg [][]int
-				ops := store.Ops[dr.DUID]
-				sort.Slice(ops, func(i, j int) bool { return ops[i].Sseq < ops[j].Sseq })
-				for _, o := range ops {
-					lg = append(lg, []int{cuid[o.CUID], int(o.Seq)})
-				}
-				scp := make([][]int, 4)
-				for c := 1; c <= 4; c++ {
-					scp[c-1] = []int{-1, -1}
-					if cl, okc := cls[c]; okc {
-						if cp, has := dr.CP[cl.Model.CUID]; has {
-							scp[c-1] = []int{int(cp[0]), int(cp[1])}
-						}
-					}
-				}
-				if lg == nil {
-					lg = [][]int{}
-				}
-				emit(ev{"event": "store", "log": lg, "end": dr.End, "scp": scp})
-			}
-			for c := 1; c <= n; c++ {
-				pack := dts[c].DT.CreatePushPullPack()
-				v := uint32(dts[c].Counter.Get())
-				held := [][]int{}
-				for idx := 0; idx < 12; idx++ {
-					if d := (v >> (2 * uint(idx))) & 3; d != 0 {
-						oc := idx/3 + 1
-						k := idx%3 + 1
-						seq := k
-						if oc == 1 {
-							seq = k + 1
-						}
-						for m := 0; m < int(d); m++ {
-							held = append(held, []int{oc, seq})
-						}
-					}
-				}
-				emit(ev{"event": "client", "c": c, "cps": pack.CheckPoint.Sseq, "seq": pack.CheckPoint.Cseq, "held": held})
-			}
-			st.FM.Gate = func(name, coll string) {
-				dmu.Lock()
-				d := time.Duration(drng.Intn(300)) * time.Microsecond
-				dmu.Unlock()
-				if d > 50*time.Microsecond {
-					time.Sleep(d)
-				}
+			w.snapshotState()
+		}
+		for k := 0; k < w.nk; k++ {
+			w.trace[k] = append(w.trace[k], ev{"event": "reset"})
+			for _, e := range w.trace[k] {
+				enc.Encode(e)
+				nevents++
 			}
 		}
-		emit(ev{"event": "reset"})
-		for _, e := range trace {
-			enc.Encode(e)
-			nevents++
-		}
+		ncalls += w.ncalls
+		nparallel += w.npar
 		st.Close()
 	}
 	f.Close()
-	sum := map[string]interface{}{"rounds": *rounds, "events": nevents, "calls": ncalls, "parallel_exchanges": nparallel, "nviol": len(viol), "violations": viol}
+	sum := map[string]interface{}{"rounds": *rounds, "events": nevents, "calls": ncalls, "parallel_exchanges": nparallel, "shapes": shapes, "nviol": len(viol), "violations": viol}
 	b, _ := json.Marshal(sum)
 	fmt.Println(string(b))
 	if len(viol) > 0 {
